@@ -196,9 +196,24 @@ theorem spec_toInt_eq (n r p : Nat) : ConvFixpntSpec.toInt n r p = (toSigned n p
     have h1 : x = -(-x) := by ring
     conv_rhs => rw [h1, Int.neg_tdiv, Int.tdiv_eq_ediv_of_nonneg (by omega : (0 : Int) ≤ -x)]
 
-/-- `to_signed<NativeInt>` reads the integer-part bits and sign-extends them: the FLOOR of the value -/
-theorem toSignedPat_floor {n r sz p : Nat} (hr : r < n) (hsz : n - r ≤ sz) (h64 : n - r ≤ 64) (hp : p < 2 ^ n) :
-    toSigned sz (toSignedPat n r sz p) = toSigned n p / (((2 ^ r : Nat) : Int)) := by
+/-- the first part of `to_signed<NativeInt>`: the integer-part bits, sign-extended (proof-side name for the value of `ll` before
+    the truncation step) -/
+def toSignedFloorPat (n r sz p : Nat) : Nat :=
+  if n ≤ r then 0 else
+  let upper := if n - r > 64 then r + 64 else n
+  let ll := ((p >>> r) % 2 ^ (upper - r)) % 2 ^ sz
+  if signP n p && decide (upper < sz + r) then ll ||| (2 ^ sz - 2 ^ (upper - r)) else ll
+
+/-- `to_signed` = integer-part bits, plus one (in the unsigned type of the same width) for a negative value with a fraction -/
+theorem toSignedPat_eq (n r sz p : Nat) (hr : r < n) :
+    toSignedPat n r sz p =
+      if signP n p && decide (p % 2 ^ r ≠ 0) then (toSignedFloorPat n r sz p + 1) % 2 ^ sz else toSignedFloorPat n r sz p := by
+  unfold toSignedPat toSignedFloorPat
+  simp only [if_neg (show ¬ n ≤ r by omega)]
+
+/-- the integer-part bits, sign-extended: the FLOOR of the value -/
+theorem toSignedFloorPat_floor {n r sz p : Nat} (hr : r < n) (hsz : n - r ≤ sz) (h64 : n - r ≤ 64) (hp : p < 2 ^ n) :
+    toSigned sz (toSignedFloorPat n r sz p) = toSigned n p / (((2 ^ r : Nat) : Int)) := by
   have hn0 : 0 < n := by omega
   have hsz0 : 0 < sz := by omega
   generalize hk : n - r = k at hsz h64
@@ -215,7 +230,7 @@ theorem toSignedPat_floor {n r sz p : Nat} (hr : r < n) (hsz : n - r ≤ sz) (h6
   have hll : ((p >>> r) % 2 ^ k) % 2 ^ sz = p / 2 ^ r := by
     rw [Nat.shiftRight_eq_div_pow, Nat.mod_eq_of_lt hH, Nat.mod_eq_of_lt (by omega)]
   have hsg : signP n p = decide (2 ^ (n - 1) ≤ p) := by unfold signP; exact testBit_top hn0 hp
-  unfold toSignedPat
+  unfold toSignedFloorPat
   rw [if_neg (by omega)]
   simp only
   rw [hk, if_neg (show ¬ k > 64 by omega), hk, hll, hsg, toSigned_of_lt hn0 hp]
@@ -253,22 +268,88 @@ theorem toSignedPat_floor {n r sz p : Nat} (hr : r < n) (hsz : n - r ≤ sz) (h6
     rw [decide_eq_false hneg, Bool.false_and, if_neg (by simp), if_pos (show p < 2 ^ (n - 1) by omega)]
     rw [toSigned_of_lt hsz0 (by omega), if_pos (by omega), ← Int.natCast_ediv, hHd]
 
-/-- `to_unsigned<NativeInt>` returns the raw pattern (`to_long_long`, sign-extended below 64 bits, then cut to sz bits) -/
-theorem toUnsignedPat_nonneg {n sz p : Nat} (hn0 : 0 < n) (hn : n < 64) (hp : p < 2 ^ (n - 1)) (hsz : p < 2 ^ sz) :
-    toUnsignedPat n sz p = p := by
-  unfold toUnsignedPat toLongLong
+/-- adding one in the unsigned type of the same width adds one to the signed reading, unless it is the largest value -/
+theorem toSigned_succ {sz A : Nat} (hsz : 0 < sz) (h : toSigned sz A + 1 < M2 (sz - 1)) :
+    toSigned sz ((A + 1) % 2 ^ sz) = toSigned sz A + 1 := by
+  have e1 : (A + 1) % 2 ^ sz = ofSigned sz (((A + 1 : Nat)) : Int) := (ofSigned_natCast sz (A + 1)).symm
+  have e2 : (((A + 1 : Nat)) : Int) = (A : Int) + 1 := by push_cast; ring
+  rw [e1, e2, ← ofSigned_add_const sz A 1]
+  have hlo := (toSigned_range hsz A).1
+  exact toSigned_ofSigned_fits hsz (by omega) h
+
+/-- `to_signed<NativeInt>` truncates toward zero whenever the integer part fits the target type -/
+theorem toSignedPat_trunc {n r sz p : Nat} (hr : r < n) (hsz : n - r ≤ sz) (h64 : n - r ≤ 64) (hp : p < 2 ^ n) :
+    toSigned sz (toSignedPat n r sz p) = (toSigned n p).tdiv (((2 ^ r : Nat) : Int)) := by
+  have hn0 : 0 < n := by omega
+  have hsz0 : 0 < sz := by omega
+  have hfl := toSignedFloorPat_floor hr hsz h64 hp
+  have hsg : signP n p = decide (2 ^ (n - 1) ≤ p) := by unfold signP; exact testBit_top hn0 hp
+  have hD : (0 : Int) < ((2 ^ r : Nat) : Int) := by exact_mod_cast Nat.two_pow_pos r
+  have hpn : 2 ^ n = 2 ^ (n - r) * 2 ^ r := by rw [← Nat.pow_add]; congr 1; omega
+  -- 2^r divides the signed reading iff it divides the pattern
+  have hdvd : (((2 ^ r : Nat) : Int)) ∣ toSigned n p ↔ p % 2 ^ r = 0 := by
+    rw [toSigned_of_lt hn0 hp]
+    have hbig : (((2 ^ r : Nat) : Int)) ∣ ((2 ^ n : Nat) : Int) := by
+      rw [hpn]; push_cast; exact Dvd.intro_left _ rfl
+    have hnat : (((2 ^ r : Nat) : Int)) ∣ (p : Int) ↔ p % 2 ^ r = 0 := by
+      rw [Int.natCast_dvd_natCast]; exact Nat.dvd_iff_mod_eq_zero
+    split
+    · exact hnat
+    · rw [← hnat]
+      constructor
+      · intro h; have := Int.dvd_add h hbig; simpa using this
+      · intro h; exact Int.dvd_sub h hbig
+  rw [toSignedPat_eq n r sz p hr, Int.tdiv_eq_ediv]
+  by_cases hneg : 2 ^ (n - 1) ≤ p
+  · have hX : toSigned n p < 0 := by
+      rw [toSigned_of_lt hn0 hp, if_neg (by omega)]
+      have : (p : Int) < ((2 ^ n : Nat) : Int) := by exact_mod_cast hp
+      omega
+    by_cases hfr : p % 2 ^ r = 0
+    · rw [hsg, decide_eq_true hneg, Bool.true_and, if_neg (by simp [hfr]), hfl, if_pos (Or.inr (hdvd.mpr hfr))]
+      simp
+    · rw [hsg, decide_eq_true hneg, Bool.true_and, if_pos (by simp [hfr]),
+        if_neg (by
+          rintro (h | h)
+          · omega
+          · exact hfr (hdvd.mp h))]
+      have hq : toSigned n p / ((2 ^ r : Nat) : Int) < 0 := Int.ediv_neg_of_neg_of_pos hX hD
+      have hpos : (0 : Int) < M2 (sz - 1) := M2_pos _
+      rw [toSigned_succ hsz0 (by rw [hfl]; omega), hfl, Int.sign_eq_one_of_pos hD]
+  · have hX : 0 ≤ toSigned n p := by
+      rw [toSigned_of_lt hn0 hp, if_pos (by omega)]; omega
+    rw [hsg, decide_eq_false hneg, Bool.false_and, if_neg (by simp), hfl, if_pos (Or.inl hX)]
+    simp
+
+/-- `to_unsigned<NativeInt>` = `to_signed<long long>` cast to the unsigned type: for a non-negative value whose integer part
+    fits, the value truncated toward zero -/
+theorem toUnsignedPat_nonneg {n r sz p : Nat} (hr : r < n) (h64 : n - r ≤ 64) (hp : p < 2 ^ (n - 1)) (hsz : p / 2 ^ r < 2 ^ sz) :
+    toUnsignedPat n r sz p = p / 2 ^ r := by
+  have hn0 : 0 < n := by omega
   have hlt : p < 2 ^ n := Nat.lt_of_lt_of_le hp (Nat.pow_le_pow_right (by omega) (by omega))
-  have h64 : p < 2 ^ 64 := Nat.lt_of_lt_of_le hlt (Nat.pow_le_pow_right (by omega) (by omega))
-  rw [if_pos hn, toSigned_of_lt hn0 hlt, if_pos hp, ofSigned_natCast, Nat.mod_eq_of_lt h64, Nat.mod_eq_of_lt hsz]
+  have hsg : signP n p = false := by
+    unfold signP; rw [testBit_top hn0 hlt]; exact decide_eq_false (by omega)
+  have hpn1 : 2 ^ (n - 1) = 2 ^ (n - r - 1) * 2 ^ r := by rw [← Nat.pow_add]; congr 1; omega
+  have hH : p / 2 ^ r < 2 ^ (n - r - 1) := Nat.div_lt_of_lt_mul (by rw [Nat.mul_comm, ← hpn1]; exact hp)
+  have h1 : 2 ^ (n - r - 1) ≤ 2 ^ (n - r) := Nat.pow_le_pow_right (by omega) (by omega)
+  have h2 : 2 ^ (n - r - 1) ≤ 2 ^ 64 := Nat.pow_le_pow_right (by omega) (by omega)
+  unfold toUnsignedPat toSignedPat
+  rw [if_neg (show ¬ n ≤ r by omega), hsg]
+  simp only [Bool.false_and, Bool.false_eq_true, if_false]
+  rw [if_neg (show ¬ n - r > 64 by omega), Nat.shiftRight_eq_div_pow, Nat.mod_eq_of_lt (show p / 2 ^ r < 2 ^ (n - r) by omega),
+    Nat.mod_eq_of_lt (show p / 2 ^ r < 2 ^ 64 by omega), Nat.mod_eq_of_lt hsz]
 
 /-! ### double → fixpnt after fixpnt → double (Modulo) -/
 
 /-- the tail of the floating-point branch of `convert`, as a function of the decoded fields -/
 def ieeeTail (n : Nat) (s : Bool) (fraction fb : Nat) (shiftRight : Int) : Nat :=
   if shiftRight > (fb : Int) + 1 then 0
-  else if shiftRight > 0 then setbits64 n (neg64 s (Lns.Model.roundGRS fraction shiftRight.toNat))
+  else if shiftRight > 0 then
+    (if s then twosComp n (setbits64 n (Lns.Model.roundGRS fraction shiftRight.toNat))
+     else setbits64 n (Lns.Model.roundGRS fraction shiftRight.toNat))
   else
-    if (-shiftRight).toNat < 64 - fb then setbits64 n (neg64 s (fraction <<< (-shiftRight).toNat))
+    if (-shiftRight).toNat < 64 - fb then
+      (if s then twosComp n (setbits64 n (fraction <<< (-shiftRight).toNat)) else setbits64 n (fraction <<< (-shiftRight).toNat))
     else if s then twosComp n ((fraction <<< (-shiftRight).toNat) % 2 ^ n) else (fraction <<< (-shiftRight).toNat) % 2 ^ n
 
 theorem fromIeee_modulo (n r ew fb bits : Nat) (h : ¬ ((bits >>> fb) % 2 ^ ew = 0 ∧ bits % 2 ^ fb = 0)) :
@@ -338,35 +419,11 @@ theorem toBits64_fields (s : Bool) {X k : Nat} (hX : 0 < X) (hX53 : X < 2 ^ 53) 
     · omega
     · omega
 
-/-- two's complement in 64 bits, cut to n ≤ 64 bits -/
-theorem setbits64_neg64 {n X : Nat} (hn : n ≤ 64) (s : Bool) (hX : X < 2 ^ 64) :
-    setbits64 n (neg64 s X) = if s then (2 ^ n - X % 2 ^ n) % 2 ^ n else X % 2 ^ n := by
-  unfold setbits64 neg64
-  have hd : 2 ^ n ∣ 2 ^ 64 := Nat.pow_dvd_pow 2 hn
-  cases s
-  · simp only [Bool.false_eq_true, if_false]
-    rw [Nat.mod_mod, Nat.mod_eq_of_lt hX]
-  · simp only [if_true]
-    rw [Nat.mod_mod, Nat.mod_mod_of_dvd _ hd, Nat.mod_eq_of_lt hX]
-    obtain ⟨c, hc⟩ := hd
-    have hpos := Nat.two_pow_pos n
-    have hXm := Nat.mod_lt X hpos
-    have hXd := Nat.div_add_mod X (2 ^ n)
-    have hcpos : 0 < c := by
-      rcases Nat.eq_zero_or_pos c with h | h
-      · rw [h, Nat.mul_zero] at hc; have := Nat.two_pow_pos 64; omega
-      · exact h
-    have hq : X / 2 ^ n < c := by
-      apply Nat.div_lt_of_lt_mul; rw [← hc]; exact hX
-    -- 2^64 − X = (c − 1 − X / 2^n)·2^n + (2^n − X % 2^n)
-    have e : 2 ^ 64 - X = (2 ^ n - X % 2 ^ n) + 2 ^ n * (c - 1 - X / 2 ^ n) := by
-      rw [hc]
-      have h1 : 2 ^ n * c = 2 ^ n * (c - 1 - X / 2 ^ n) + 2 ^ n * (X / 2 ^ n) + 2 ^ n := by
-        have : c = (c - 1 - X / 2 ^ n) + X / 2 ^ n + 1 := by omega
-        conv_lhs => rw [this]
-        ring
-      omega
-    rw [e, Nat.add_mul_mod_self_left]
+/-- `setbits(uint64_t)` of a magnitude below 2^64, then `twosComplement()` for a negative source: any nbits -/
+theorem setbits64_twos {n X : Nat} (s : Bool) (hX : X < 2 ^ 64) :
+    (if s then twosComp n (setbits64 n X) else setbits64 n X) = if s then (2 ^ n - X % 2 ^ n) % 2 ^ n else X % 2 ^ n := by
+  unfold setbits64 twosComp
+  rw [Nat.mod_eq_of_lt hX, Nat.mod_mod]
 
 /-- double → fixpnt (Modulo) of the exact double of a fixpnt magnitude: the encoding comes back -/
 theorem fromIeee_of_scaled {n r : Nat} (hr : r ≤ n) (hn : n ≤ 53) (s : Bool) {X : Nat} (hX : 0 < X) (hXn : X ≤ 2 ^ (n - 1)) :
@@ -404,12 +461,12 @@ theorem fromIeee_of_scaled {n r : Nat} (hr : r ≤ n) (hn : n ≤ 53) (s : Bool)
   by_cases hz : 0 < 52 - L
   · rw [if_pos (by omega), Int.toNat_natCast, LnsLemmas.roundGRS_eq_rneShr _ _ (by omega),
       IeeeLemmas.rneShr_of_dvd (Dvd.intro_left _ rfl), Nat.mul_div_cancel _ (Nat.two_pow_pos _)]
-    exact setbits64_neg64 (by omega) s hX64
+    exact setbits64_twos s hX64
   · have hL52 : 52 - L = 0 := by omega
     rw [if_neg (by omega), hL52]
     simp only [Nat.cast_zero, neg_zero, Int.toNat_zero, Nat.shiftLeft_zero, Nat.pow_zero, Nat.mul_one]
     rw [if_pos (by omega)]
-    exact setbits64_neg64 (by omega) s hX64
+    exact setbits64_twos s hX64
 
 /-- the exact structural result of `to_native` when nbits fits the precision: sign and magnitude -/
 theorem toNative_fin (fmt : Fmt) (ok : fmt.Ok) {n r mag : Nat} (hr : r ≤ fmt.q) (hn : n ≤ fmt.p)
